@@ -115,6 +115,19 @@ Qed.
 Lemma any_held_all_false (h : list bool) : any_held (map (fun _ => false) h) = false.
 Proof. induction h as [|a r IH]; [reflexivity|exact IH]. Qed.
 
+Lemma crun_no_cause t es :
+  gone t = None -> forallb (fun e => negb (is_cause e)) es = true -> gone (fst (crun t es)) = None.
+Proof.
+  revert t. induction es as [|e r IH]; intros t G H; cbn [crun]; [exact G|].
+  cbn [forallb] in H. apply andb_prop in H. destruct H as [H1 H2].
+  destruct (cstep t e) as [t1 n1] eqn:E.
+  assert (G1 : gone t1 = None).
+  { destruct (gone t1) eqn:G1; [|reflexivity]. exfalso.
+    pose proof (exit_only_on_cause t e G) as X. rewrite E in X. cbn [fst] in X.
+    rewrite G1 in X. rewrite X in H1 by discriminate. discriminate. }
+  specialize (IH t1 G1 H2). destruct (crun t1 r) as [t2 n2]. exact IH.
+Qed.
+
 Lemma pend_after_mono s o : (l_pend s <= pend_after s o)%nat.
 Proof.
   unfold pend_after. destruct (negb (rc_of s o =? 0)); [lia|].
@@ -136,7 +149,7 @@ Proof.
   { apply (crun_running_mono _ (events_of s o)). now rewrite E. }
   assert (R0 : running s = true) by (unfold running; now rewrite G0).
   specialize (I R0). pose proof (pend_after_mono s o) as PM.
-  destruct o as [i a|nm k|i|i|i| |arm|nm arm]; cbn [handles_after];
+  destruct o as [i a|nm k|i|i|i| |arm|nm mask arm]; cbn [handles_after];
     try (exact (any_strong_mono _ _ _ PM I)).
   - (* LDrop: if it was the last strong sender, the loop has seen `None` and ended *)
     assert (PE : pend_after s (LDrop i) = l_pend s) by (unfold pend_after; destruct (negb _); reflexivity).
@@ -146,12 +159,31 @@ Proof.
     rewrite R0, H in E. cbn [andb negb] in E.
     pose proof (cause_ends (l_task s) (ECmd CNone) G0 eq_refl) as C. rewrite E in C. cbn [fst] in C. congruence.
   - (* LRace *)
-    assert (PE : pend_after s (LRace nm arm) = l_pend s) by (unfold pend_after; destruct (negb _); reflexivity).
-    rewrite PE, R0. unfold any_strong. rewrite any_held_all_false. cbn [orb].
+    assert (PE : pend_after s (LRace nm mask arm) = l_pend s) by (unfold pend_after; destruct (negb _); reflexivity).
+    rewrite PE, R0. cbn [andb].
+    (* no termination cause was among the ready branches, else the loop would have ended *)
+    assert (A0 : race_arms (l_handle s) (l_pend s) mask = []).
+    { destruct (race_arms (l_handle s) (l_pend s) mask) as [|d rest] eqn:A; [reflexivity|exfalso].
+      unfold events_of in E. cbn [rc_of] in E. rewrite R0, N.eqb_refl in E. cbn [negb] in E. rewrite A in E.
+      cbn [pick_arm] in E. rewrite crun_app in E.
+      set (pre := if race_served (l_pend s) mask then [EYamux (YSub true); ENeg (neg_result (l_tbl s) nm)] else []) in E.
+      assert (NP : forallb (fun e => negb (is_cause e)) pre = true).
+      { unfold pre. destruct (race_served (l_pend s) mask); [|reflexivity]. unfold neg_result.
+        destruct (negotiated (l_tbl s) nm); reflexivity. }
+      pose proof (crun_no_cause (l_task s) pre G0 NP) as G2.
+      destruct (crun (l_task s) pre) as [t2 n2]. cbn [fst] in G2.
+      set (a := if existsb (N.eqb arm) (d :: rest) then arm else d) in E.
+      assert (C : is_cause (ev_of_arm a) = true).
+      { unfold ev_of_arm. destruct (a =? 1); [reflexivity|]. destruct (a =? 2); [reflexivity|].
+        destruct (a =? 3); [reflexivity|]. destruct (a =? 4); reflexivity. }
+      pose proof (cause_ends t2 _ G2 C) as C1.
+      destruct (crun t2 [ev_of_arm a]) as [t3 n3]. cbn [fst] in C1. inversion E. subst. congruence. }
+    destruct (N.testbit mask 2) eqn:B2; [|exact I].
+    unfold any_strong. rewrite any_held_all_false. cbn [orb].
     destruct (l_pend s =? 0)%nat eqn:P; [exfalso|reflexivity].
-    unfold events_of in E. cbn [rc_of] in E. rewrite R0, N.eqb_refl in E. cbn [negb] in E. rewrite P in E.
-    assert (C : is_cause (if arm =? 1 then EYamux (YSub false) else ECmd CNone) = true) by (destruct (arm =? 1); reflexivity).
-    pose proof (cause_ends (l_task s) _ G0 C) as C1. rewrite E in C1. cbn [fst] in C1. congruence.
+    unfold race_arms in A0. rewrite B2, P in A0. cbn [andb] in A0.
+    destruct (N.testbit mask 0 && any_held (l_handle s)); cbn [negb app] in A0; [discriminate A0|].
+    destruct (N.testbit mask 1); discriminate A0.
 Qed.
 
 Lemma linv_run ops : forall s, LInv s -> LInv (fst (lrun s ops)).
@@ -194,23 +226,11 @@ Definition ends_conn (s : lst) (o : lop) : bool :=
   match o with
   | LForce i => rc_of s o =? 0
   | LRemoteClose _ => true
-  | LRace _ _ => (l_pend s =? 0)%nat
+  | LRace _ mask _ => match race_arms (l_handle s) (l_pend s) mask with [] => false | _ => true end
   | LDrop i => (i <? nprot s)%nat && negb (any_strong (set_nth i false (l_handle s)) (l_pend s))
   | _ => false
   end.
 
-Lemma crun_no_cause t es :
-  gone t = None -> forallb (fun e => negb (is_cause e)) es = true -> gone (fst (crun t es)) = None.
-Proof.
-  revert t. induction es as [|e r IH]; intros t G H; cbn [crun]; [exact G|].
-  cbn [forallb] in H. apply andb_prop in H. destruct H as [H1 H2].
-  destruct (cstep t e) as [t1 n1] eqn:E.
-  assert (G1 : gone t1 = None).
-  { destruct (gone t1) eqn:G1; [|reflexivity]. exfalso.
-    pose proof (exit_only_on_cause t e G) as X. rewrite E in X. cbn [fst] in X.
-    rewrite G1 in X. rewrite X in H1 by discriminate. discriminate. }
-  specialize (IH t1 G1 H2). destruct (crun t1 r) as [t2 n2]. exact IH.
-Qed.
 
 Theorem loop_ends_iff_cause s o :
   running s = true -> (running (fst (lstep s o)) = false <-> ends_conn s o = true).
@@ -224,7 +244,7 @@ Proof.
   assert (YC : forall e, events_of s o = [e] -> is_cause e = true -> gone t1 <> None).
   { intros e Hes H. pose proof (cause_ends (l_task s) e G H) as X. rewrite <- Hes, E in X. exact X. }
   unfold events_of in NC, YC.
-  destruct o as [i a|nm k|i|i|i| |arm|nm arm]; cbn [rc_of] in *; rewrite ?R in *; cbn [andb negb] in *.
+  destruct o as [i a|nm k|i|i|i| |arm|nm mask arm]; cbn [rc_of] in *; rewrite ?R in *; cbn [andb negb] in *.
   - (* LOpen *) rewrite (NC _ eq_refl); [split; discriminate|].
     destruct (i <? nprot s)%nat; [|reflexivity]. destruct (held s i); cbn; [|reflexivity].
     destruct (a =? 4); [reflexivity|]. destruct (a =? 0); reflexivity.
@@ -252,12 +272,24 @@ Proof.
   - rewrite N.eqb_refl in YC. cbn [negb] in YC.
     assert (C : is_cause (EYamux (if arm =? 2 then YErr else YEof)) = true) by (destruct (arm =? 2); reflexivity).
     pose proof (YC _ eq_refl C) as X. destruct (gone t1); [tauto|congruence].
-  - rewrite N.eqb_refl in YC, NC. cbn [negb] in YC, NC.
-    destruct (l_pend s =? 0)%nat.
-    + assert (C : is_cause (if arm =? 1 then EYamux (YSub false) else ECmd CNone) = true) by (destruct (arm =? 1); reflexivity).
-      pose proof (YC _ eq_refl C) as X. destruct (gone t1); [tauto|congruence].
-    + rewrite (NC _ eq_refl); [split; discriminate|]. unfold neg_result.
-      destruct (negotiated (l_tbl s) nm); reflexivity.
+  - (* LRace *)
+    clear NC YC. unfold events_of in E. cbn [rc_of] in E. rewrite R, N.eqb_refl in E. cbn [negb] in E.
+    rewrite crun_app in E.
+    set (pre := if race_served (l_pend s) mask then [EYamux (YSub true); ENeg (neg_result (l_tbl s) nm)] else []) in E.
+    assert (NP : forallb (fun e => negb (is_cause e)) pre = true).
+    { unfold pre. destruct (race_served (l_pend s) mask); [|reflexivity]. unfold neg_result.
+      destruct (negotiated (l_tbl s) nm); reflexivity. }
+    pose proof (crun_no_cause (l_task s) pre G NP) as G2.
+    destruct (crun (l_task s) pre) as [t2 n2]. cbn [fst] in G2.
+    destruct (race_arms (l_handle s) (l_pend s) mask) as [|d rest]; cbn [pick_arm] in E.
+    + cbn [crun] in E. inversion E. subst. rewrite G2. split; discriminate.
+    + set (a := if existsb (N.eqb arm) (d :: rest) then arm else d) in E.
+      assert (C : is_cause (ev_of_arm a) = true).
+      { unfold ev_of_arm. destruct (a =? 1); [reflexivity|]. destruct (a =? 2); [reflexivity|].
+        destruct (a =? 3); [reflexivity|]. destruct (a =? 4); reflexivity. }
+      pose proof (cause_ends t2 _ G2 C) as C1.
+      destruct (crun t2 [ev_of_arm a]) as [t3 n3]. cbn [fst] in C1. inversion E. subst.
+      destruct (gone t1); [tauto|congruence].
 Qed.
 
 (* ------------------------------------------------------------------------------------------ *)
@@ -319,7 +351,7 @@ Theorem loop_events_in_range s o e fb :
 Proof.
   intros T HIn L t Hl. unfold events_of in HIn.
   destruct (negb (rc_of s o =? 0)) eqn:RC; [destruct HIn|].
-  destruct o as [i a|nm k|i|i|i| |arm|nm arm]; cbn [In] in HIn.
+  destruct o as [i a|nm k|i|i|i| |arm|nm mask arm]; cbn [In] in HIn.
   - destruct HIn as [<-|HIn]; [reflexivity|]. destruct (a =? 4); [destruct HIn|]. destruct HIn as [<-|[]].
     destruct (a =? 0); [|reflexivity]. cbn [in_range]. rewrite Hl.
     cbn [rc_of] in RC. destruct (i <? nprot s)%nat eqn:Hi; [reflexivity|]. discriminate RC.
@@ -333,11 +365,15 @@ Proof.
   - destruct HIn as [<-|[]]. discriminate L.
   - destruct HIn as [<-|[]]. discriminate L.
   - destruct HIn as [<-|[]]. destruct (arm =? 2); reflexivity.
-  - destruct (l_pend s =? 0)%nat.
-    + destruct HIn as [<-|[]]. destruct (arm =? 1); reflexivity.
-    + destruct HIn as [<-|[<-|[]]]; [reflexivity|]. unfold neg_result.
+  - apply in_app_or in HIn. destruct HIn as [HIn|HIn].
+    + destruct (race_served (l_pend s) mask); [|destruct HIn].
+      destruct HIn as [<-|[<-|[]]]; [reflexivity|]. unfold neg_result.
       destruct (negotiated (l_tbl s) nm) as [i|] eqn:Ng; [|reflexivity].
       cbn [in_range]. rewrite Hl. rewrite T in Ng. apply negotiated_in_range in Ng. now apply Nat.ltb_lt.
+    + destruct (pick_arm (race_arms (l_handle s) (l_pend s) mask) arm) as [a|]; [|destruct HIn].
+      destruct HIn as [<-|[]]. unfold ev_of_arm.
+      destruct (a =? 1); [reflexivity|]. destruct (a =? 2); [reflexivity|].
+      destruct (a =? 3); [reflexivity|]. destruct (a =? 4); reflexivity.
 Qed.
 
 (* ------------------------------------------------------------------------------------------ *)
